@@ -167,6 +167,7 @@ type c35Session struct {
 	model  map[int]bool // stored serials of base 1 in ISD 1
 	latest int
 	hist   *c35Hist
+	dead   bool
 }
 
 func newC35Session(r *mon.Run, w *c35World, initial []int, hist *c35Hist) *c35Session {
@@ -189,6 +190,20 @@ func newC35Session(r *mon.Run, w *c35World, initial []int, hist *c35Hist) *c35Se
 
 func (s *c35Session) close() { s.db.DB.Close() }
 
+// viol reports a violation and ends the session: after a divergence the model
+// and the store no longer correspond and later steps would only echo it.
+func (s *c35Session) viol(key, what string) {
+	s.dead = true
+	s.r.Violation(key, what, s.hist)
+}
+
+func orNone(s string) string {
+	if s == "" {
+		return "no-fault"
+	}
+	return s
+}
+
 func sortedKeys(m map[int]bool) []int {
 	var out []int
 	for k := range m {
@@ -201,6 +216,9 @@ func sortedKeys(m map[int]bool) []int {
 // notify performs one NotifyTRC and judges the resulting store. faultKey is
 // the label used in violation keys. Returns the first fault position hit (0 if none).
 func (s *c35Session) notify(id cppki.TRCID, kind string, script map[int]string) {
+	if s.dead {
+		return
+	}
 	ctx := context.Background()
 	s.f.script, s.f.log = script, nil
 	s.db.inserts = nil
@@ -235,7 +253,7 @@ func (s *c35Session) notify(id cppki.TRCID, kind string, script map[int]string) 
 	s.r.Eval(1)
 	if pan != nil {
 		s.hist.Steps = append(s.hist.Steps, step)
-		s.r.Violation("C35:panic:"+mon.PanicSite(stack), fmt.Sprintf("NotifyTRC panicked: %v", pan), s.hist)
+		s.viol("C35:panic:"+mon.PanicSite(stack), fmt.Sprintf("NotifyTRC panicked: %v", pan))
 		return
 	}
 
@@ -244,19 +262,19 @@ func (s *c35Session) notify(id cppki.TRCID, kind string, script map[int]string) 
 	for _, t := range allTRCs(s.db.DB) {
 		step.Stored = append(step.Stored, t.TRC.ID.String())
 		if int(t.TRC.ID.ISD) != c35ISD {
-			s.r.Violation("C35:other-isd-stored", "a TRC of another ISD was stored: "+t.TRC.ID.String(), s.hist)
+			s.viol("C35:other-isd-stored", "a TRC of another ISD was stored: "+t.TRC.ID.String())
 			continue
 		}
 		if t.TRC.ID.Base != 1 {
 			s.hist.Steps = append(s.hist.Steps, step)
-			s.r.Violation("C35:other-base-stored/"+kind+"/"+faultKind, "a TRC with another base number was accepted: "+t.TRC.ID.String(), s.hist)
+			s.viol("C35:other-base-stored/"+orNone(faultKind), "a TRC with another base number was accepted: "+t.TRC.ID.String())
 			return
 		}
 		ser := int(t.TRC.ID.Serial)
 		stored[ser] = true
 		if ser <= s.w.N && string(t.TRC.Raw) != string(s.w.genuine[ser].Signed.TRC.Raw) {
 			s.hist.Steps = append(s.hist.Steps, step)
-			s.r.Violation("C35:stored-unverified/"+faultKind, fmt.Sprintf("stored TRC %s is not the verified successor", t.TRC.ID), s.hist)
+			s.viol("C35:stored-unverified/"+orNone(faultKind), fmt.Sprintf("stored TRC %s is not the verified successor", t.TRC.ID))
 			return
 		}
 	}
@@ -282,19 +300,19 @@ func (s *c35Session) notify(id cppki.TRCID, kind string, script map[int]string) 
 		}
 		switch {
 		case otherBase:
-			s.r.Violation("C35:advanced-on-other-base", fmt.Sprintf("notification %s (stored base 1) made the store accept S%d", id, ser), s.hist)
+			s.viol("C35:advanced-on-other-base", fmt.Sprintf("notification %s (stored base 1) made the store accept S%d", id, ser))
 		case firstFault > 0 && ser == firstFault:
-			s.r.Violation("C35:stored-unverified/"+faultKind, fmt.Sprintf("S%d was stored although the remote delivered %q for it", ser, faultKind), s.hist)
+			s.viol("C35:stored-unverified/"+faultKind, fmt.Sprintf("S%d was stored although the remote delivered %q for it", ser, faultKind))
 		case firstFault > 0 && ser > firstFault:
-			s.r.Violation("C35:continued-after-failure/"+faultKind, fmt.Sprintf("S%d was stored although S%d could not be fetched/verified (%s)", ser, firstFault, faultKind), s.hist)
+			s.viol("C35:continued-after-failure/"+faultKind, fmt.Sprintf("S%d was stored although S%d could not be fetched/verified (%s)", ser, firstFault, faultKind))
 		default:
-			s.r.Violation("C35:unexpected-trc-stored", fmt.Sprintf("S%d stored without a reason", ser), s.hist)
+			s.viol("C35:unexpected-trc-stored", fmt.Sprintf("S%d stored without a reason", ser))
 		}
 		return
 	}
 	for _, ser := range sortedKeys(s.model) {
 		if !stored[ser] {
-			s.r.Violation("C35:missing-update", fmt.Sprintf("S%d should have been stored (gap-free succession up to the first failure) but is absent", ser), s.hist)
+			s.viol("C35:missing-update", fmt.Sprintf("S%d should have been stored (gap-free succession up to the first failure) but is absent", ser))
 			return
 		}
 	}
@@ -302,7 +320,7 @@ func (s *c35Session) notify(id cppki.TRCID, kind string, script map[int]string) 
 	for i, ins := range s.db.inserts {
 		want := cppki.TRCID{ISD: c35ISD, Base: 1, Serial: scrypto.Version(prevLatest + 1 + i)}.String()
 		if ins != want {
-			s.r.Violation("C35:insert-order", fmt.Sprintf("insertion %d was %s, expected %s", i, ins, want), s.hist)
+			s.viol("C35:insert-order", fmt.Sprintf("insertion %d was %s, expected %s", i, ins, want))
 			return
 		}
 	}
@@ -311,7 +329,7 @@ func (s *c35Session) notify(id cppki.TRCID, kind string, script map[int]string) 
 		for _, fe := range s.f.log {
 			tid, perr := cppki.TRCIDFromString(fe.ID)
 			if perr == nil && int(tid.Serial) > firstFault {
-				s.r.Violation("C35:fetch-after-failure/"+faultKind, fmt.Sprintf("%s requested after S%d failed", fe.ID, firstFault), s.hist)
+				s.viol("C35:fetch-after-failure/"+faultKind, fmt.Sprintf("%s requested after S%d failed", fe.ID, firstFault))
 				return
 			}
 		}
@@ -319,7 +337,7 @@ func (s *c35Session) notify(id cppki.TRCID, kind string, script map[int]string) 
 	// latest never regresses
 	lt, lerr := s.db.DB.SignedTRC(ctx, cppki.TRCID{ISD: c35ISD, Base: scrypto.LatestVer, Serial: scrypto.LatestVer})
 	if lerr != nil || int(lt.TRC.ID.Serial) < prevLatest || lt.TRC.ID.Base != 1 {
-		s.r.Violation("C35:latest-regressed", fmt.Sprintf("latest is %v (err %v) after it was S%d", lt.TRC.ID, lerr, prevLatest), s.hist)
+		s.viol("C35:latest-regressed", fmt.Sprintf("latest is %v (err %v) after it was S%d", lt.TRC.ID, lerr, prevLatest))
 	}
 }
 
